@@ -119,7 +119,7 @@ def grammar_text(case):
     rules = case["rules"]
     out = [f"Model: {render(normalize(rules['Model']), 'top')} ;"]
     if "Sub" in rules:
-        out.append(f"Sub: 'sub' {render(normalize(rules['Sub']), 'seq')} ;")
+        out.append(f"Sub: '@sub' {render(normalize(rules['Sub']), 'seq')} ;")
     return "\n".join(out) + "\n"
 
 
@@ -150,7 +150,7 @@ def rule_body(case, rule):
     """The body as textX sees it (Sub has its leading keyword)."""
     b = normalize(case["rules"][rule])
     if rule == "Sub":
-        b = {"k": "seq", "xs": [{"k": "kw", "s": "sub"}, b]}
+        b = {"k": "seq", "xs": [{"k": "kw", "s": "@sub"}, b]}
     return b
 
 
@@ -350,10 +350,14 @@ def nullable(n):
 
 def loops_forever(n, in_rep=False):
     """Arpeggio: an ordered choice accepts an alternative that matched nothing (`x*` gives `[]`) and
-    wraps it into a truthy `[[]]`; a repetition around it then never ends.  Such grammars are outside
-    the property (nothing is accepted) and are not generated."""
+    wraps it into a truthy `[[]]`, an optional does the same; a repetition around such a result never
+    ends (no input is consumed).  Such grammars are outside the property (nothing is ever accepted) and
+    are not generated: below a repetition, no choice with a nullable alternative and no optional with a
+    nullable operand."""
     k = n["k"]
-    if k == "alt" and in_rep and any(nullable(x) for x in n["xs"]):
+    if in_rep and k == "alt" and any(nullable(x) for x in n["xs"]):
+        return True
+    if in_rep and k == "opt" and nullable(n["x"]):
         return True
     if k == "rep":
         return loops_forever(n["x"], True)
@@ -425,7 +429,7 @@ def derive(n, rng, case, out, fuel):
     elif k == "asgn":
         def one():
             if n["rhs"] == "Sub":
-                out.append(["kw", "sub"])
+                out.append(["kw", "@sub"])
                 derive(normalize(case["rules"]["Sub"]), rng, case, out, fuel)
             else:
                 out.append(["val", value_token(n["rhs"], rng, None)])
@@ -523,16 +527,17 @@ class watchdog:
             def handler(sig, frm):
                 raise Watchdog()
 
-            self.old = signal.signal(signal.SIGALRM, handler)
-            signal.setitimer(signal.ITIMER_REAL, self.seconds)
+            # CPU time of this process, not wall time: a loaded machine must not look like a hang
+            self.old = signal.signal(signal.SIGPROF, handler)
+            signal.setitimer(signal.ITIMER_PROF, self.seconds)
         return self
 
     def __exit__(self, *a):
         import signal
 
         if self.active:
-            signal.setitimer(signal.ITIMER_REAL, 0)
-            signal.signal(signal.SIGALRM, self.old)
+            signal.setitimer(signal.ITIMER_PROF, 0)
+            signal.signal(signal.SIGPROF, self.old)
         return False
 
 
@@ -601,7 +606,7 @@ class Prop(Check):
             with watchdog(10):
                 mm = metamodel_from_str(gtxt, auto_init_attributes=bool(case.get("auto_init", True)))
         except Watchdog:
-            obs["grammar"] = {"other": "Watchdog", "msg": "grammar load did not finish in 10 s"}
+            obs["grammar"] = {"other": "Watchdog", "msg": "grammar load did not finish in 10 s of CPU time"}
             return obs
         except TextXError as e:
             msg = str(e)
@@ -708,7 +713,7 @@ class Prop(Check):
                     parser.parse(text)
                 top = parser.parse_tree[0] if isinstance(parser.parse_tree, NonTerminal) and len(parser.parse_tree) else None
             except Watchdog:
-                tobs["parse"] = {"other": "Watchdog", "msg": "parse did not finish in 5 s"}
+                tobs["parse"] = {"other": "Watchdog", "msg": "parse did not finish in 5 s of CPU time"}
                 continue
             except TextXSyntaxError as e:
                 tobs["parse"] = {"syntax": [e.line, e.col]}
@@ -730,7 +735,7 @@ class Prop(Check):
                     model = mm.model_from_str(text)
                 tobs["model"] = {"ok": model_objs(model)}
             except Watchdog:
-                tobs["model"] = {"other": "Watchdog", "msg": "model construction did not finish in 5 s"}
+                tobs["model"] = {"other": "Watchdog", "msg": "model construction did not finish in 5 s of CPU time"}
             except TextXSemanticError as e:
                 tobs["model"] = {"err": {"cls": type(e).__name__, "err_type": getattr(e, "err_type", None), "msg": str(e)[:200]}}
             except TextXError as e:
